@@ -168,6 +168,77 @@ func standalone() *explore.Scenario {
 	}}
 }
 
+// A filter with memory (a budget: it accepts only the first b errors it is shown) over a stream of failing
+// messages. Whatever the filter answered for a message, the message ends up either in the poison topic
+// (and reported as success) or still failing, never neither, and never both.
+func budgetStream() *explore.Scenario {
+	return &explore.Scenario{Name: "standalone/budget-filter-stream", C: -1, DataOnly: true, Body: func() {
+		budget := vs.Choose(4, 0, "filter budget")
+		n := 1 + vs.Choose(3, 0, "stream length")
+		pub := hx.NewScriptPub("poison")
+		accepted := 0
+		var verdicts []bool // answers given while the current message is being handled
+		mw, err := middleware.PoisonQueueWithFilter(pub, "poison", func(e error) bool {
+			v := accepted < budget
+			if v {
+				accepted++
+			}
+			verdicts = append(verdicts, v)
+			return v
+		})
+		if err != nil {
+			vs.Fail("setup", "%v", err)
+			return
+		}
+		desc := fmt.Sprintf("budget=%d: ", budget)
+		for i := 0; i < n; i++ {
+			res := []string{"e1", "ok1", "wrapped-e1"}[vs.Choose(3, 0, "handler result")]
+			msg := message.NewMessage(fmt.Sprintf("u%d", i), []byte("payload"))
+			var bareErr error
+			verdicts = nil
+			before := len(pub.Snapshot())
+			out, err := mw(func(m *message.Message) ([]*message.Message, error) {
+				o, e := handlerResult(res, m)
+				bareErr = e
+				return o, e
+			})(msg)
+			published := 0
+			for _, c := range pub.Snapshot()[before:] {
+				for _, pm := range c.Msgs {
+					if pm.UUID == msg.UUID && c.Topic == "poison" {
+						published++
+					}
+				}
+			}
+			cfg := fmt.Sprintf("%smessage %d result=%s filter answered %v", desc, i, res, verdicts)
+			desc += res + " "
+			if bareErr == nil {
+				if err != nil || len(out) != 1 || published != 0 {
+					vs.Fail("passes-through", "%s: success changed into (%d outputs, %v), %d poison publishes", cfg, len(out), err, published)
+				}
+				continue
+			}
+			anyYes, anyNo := false, false
+			for _, v := range verdicts {
+				anyYes, anyNo = anyYes || v, anyNo || !v
+			}
+			switch {
+			case published > 1:
+				vs.Fail("poison-once", "%s: published %d times to the poison topic", cfg, published)
+			case published == 0 && err == nil:
+				vs.Fail("in-poison-topic-or-still-failing", "%s: the failed message is neither in the poison topic nor still failing (the middleware returned nil, nothing was published)", cfg)
+			case published == 1 && err != nil:
+				vs.Fail("success-after-poison", "%s: message is in the poison topic but the middleware returned %v", cfg, err)
+			case published == 1 && !anyYes:
+				vs.Fail("passes-through", "%s: poisoned although the filter never accepted the error", cfg)
+			case published == 0 && !anyNo:
+				vs.Fail("poison-once", "%s: the filter accepted the error but nothing was published (returned %v)", cfg, err)
+			}
+		}
+		vs.Note("%s", desc)
+	}}
+}
+
 func inRouter(c int) *explore.Scenario {
 	name := "router"
 	if c >= 0 {
@@ -230,6 +301,7 @@ func inRouter(c int) *explore.Scenario {
 
 func init() {
 	reg.AddW("C13", "standalone", reg.Quick, 1, func(t reg.Tier) *explore.Scenario { return standalone() })
+	reg.AddW("C13", "standalone/budget-filter-stream", reg.Quick, 1, func(t reg.Tier) *explore.Scenario { return budgetStream() })
 	reg.AddW("C13", "router", reg.Quick, 5, func(t reg.Tier) *explore.Scenario { return inRouter(-1) })
 	reg.AddW("C13", "router/c0", reg.Quick, 20, func(t reg.Tier) *explore.Scenario {
 		if t == reg.Thorough {
